@@ -392,3 +392,82 @@ Proof.
 Qed.
 
 End Histories.
+
+(* ---- the two quote directions of the geometric TWAP ---- *)
+Section Reciprocal.
+Variable lg : Z -> option Z.
+Variable ex : Z -> option Z.
+
+(* what geometric.computeTwap should return for accumulator difference [diff] over [n] milliseconds: the code's
+   rounding of Exp2 |mean| or of its reciprocal *)
+Definition geom_answer (diff n : Z) (q0 : bool) (v : Z) : Prop :=
+  let m := Z.quot diff n in
+  exists E, ex (bd_from_dec (Z.abs m)) = Some E /\
+    let invert := ((m <? 0) && q0) || (negb (m <? 0) && negb q0) in
+    sigfig_round (bd_to_dec (if invert then bd_quo P36 E else E)) = Some v.
+
+Theorem geom_reciprocal t0 h0 w0 w1 evs p G now start stop f0 v0 f1 v1 :
+  history lg t0 h0 w0 w1 evs p G -> r_time (p_recent p) <= now ->
+  t0 <= start -> max_keep t0 evs <= start -> ms start < ms stop ->
+  twap_between lg ex now p true true start stop = QVal f0 v0 ->
+  twap_between lg ex now p false true start stop = QVal f1 v1 ->
+  let diff := integral (fun tau => glogv lg (price_at (spec_events t0 w0 w1 evs) true 0 tau)) (ms start) (ms stop) in
+  let m := Z.quot diff (ms stop - ms start) in
+  (diff = 0 /\ v0 = 0 /\ v1 = 0) \/
+  (diff <> 0 /\ exists E, ex (bd_from_dec (Z.abs m)) = Some E /\
+     sigfig_round (bd_to_dec (if m <? 0 then bd_quo P36 E else E)) = Some v0 /\
+     sigfig_round (bd_to_dec (if m <? 0 then E else bd_quo P36 E)) = Some v1).
+Proof.
+  intros Hh Hnow Hs HK Hms H0 H1. cbv zeta.
+  pose proof (geom_structure lg ex _ _ _ _ _ _ _ _ _ _ _ _ _ Hh Hnow Hs HK Hms H0) as G0.
+  pose proof (geom_structure lg ex _ _ _ _ _ _ _ _ _ _ _ _ _ Hh Hnow Hs HK Hms H1) as G1.
+  cbv zeta in G0, G1.
+  destruct G0 as [[D0 V0]|[D0 (E0 & X0 & S0)]]; destruct G1 as [[D1 V1]|[D1 (E1 & X1 & S1)]]; try contradiction.
+  - left. tauto.
+  - right. split; [assumption|]. rewrite X0 in X1. injection X1 as <-. exists E0. split; [assumption|].
+    destruct (_ <? 0); cbn [andb orb negb] in *; split; assumption.
+Qed.
+
+(* bankers rounding is within half a unit *)
+Lemma chop_half p a : 0 < p -> 0 <= a -> Z.quot p 2 * 2 = p ->
+  Z.abs (chop_round_nonneg p a * p - a) * 2 <= p.
+Proof.
+  intros Hp Ha Hh. unfold chop_round_nonneg.
+  pose proof (Z.quot_rem' a p) as Hqr. pose proof (Z.rem_bound_pos a p Ha Hp) as Hrem.
+  remember (Z.quot a p) as q eqn:Hq. remember (Z.rem a p) as r eqn:Hr. remember (Z.quot p 2) as h eqn:Hhd.
+  clear Hq Hr Hhd.
+  destruct (r =? 0) eqn:E0.
+  - apply Z.eqb_eq in E0. subst r. replace (q * p - a) with 0 by lia. cbn. lia.
+  - destruct (r ?= h) eqn:Ec.
+    + apply Z.compare_eq in Ec. subst r.
+      destruct (Z.even q).
+      * replace (q * p - a) with (- h) by lia. lia.
+      * replace ((q + 1) * p - a) with (p - h) by lia. lia.
+    + rewrite Z.compare_lt_iff in Ec. lia.
+    + rewrite Z.compare_gt_iff in Ec. lia.
+Qed.
+
+(* one rounded reciprocal: E * round(10^72 / E) is 10^72 up to E/2 + E/10^36 *)
+Lemma bd_quo_recip E : 0 < E ->
+  Z.abs (bd_quo P36 E * E * P36 - P36 * P72) * 2 <= E * P36 + 2 * E.
+Proof.
+  intros HE. unfold bd_quo.
+  assert (0 < P36) as H36 by reflexivity. assert (0 < P72) as H72 by reflexivity.
+  assert (Z.quot P36 2 * 2 = P36) as Hhalf by reflexivity.
+  remember (P36 * P72) as N eqn:HNdef. assert (0 < N) as HN by nia.
+  remember (Z.quot N E) as Q eqn:HQdef.
+  assert (Q = N / E) as HQ by (rewrite HQdef; apply Z.quot_div_nonneg; lia).
+  assert (Q * E <= N < Q * E + E) as HQE.
+  { rewrite HQ. pose proof (Z.mul_div_le N E HE). pose proof (Z.mul_succ_div_gt N E HE). nia. }
+  assert (0 <= Q) as HQ0 by (rewrite HQ; apply Z.div_pos; lia).
+  assert (Z.abs (chop_round P36 Q * P36 - Q) * 2 <= P36) as Hr.
+  { unfold chop_round. destruct (Q <? 0) eqn:EQ; [lia|]. apply chop_half; assumption. }
+  remember (chop_round P36 Q) as R eqn:HRdef. clear HRdef HQdef HQ.
+  remember P36 as c eqn:Hc. clear Hc Hhalf HNdef.
+  assert (Z.abs (R * c * E - Q * E) * 2 <= E * c) as H1.
+  { replace (R * c * E - Q * E) with ((R * c - Q) * E) by ring. rewrite Z.abs_mul, (Z.abs_eq E) by lia. nia. }
+  replace (R * E * c - N) with ((R * c * E - Q * E) - (N - Q * E)) by ring.
+  lia.
+Qed.
+
+End Reciprocal.
